@@ -386,7 +386,7 @@ func (s *c26st) exec(line string) {
 	c.Op(opLine, result+" | "+s.dump())
 	c.Distinct(opLine)
 	for _, f := range fails {
-		c.Fail(f[0], f[1])
+		capFail(c, f[0], f[1])
 	}
 	s.checkInv(opLine)
 }
